@@ -1118,6 +1118,7 @@ func main() {
 	pristineDir := flag.String("pristine", "", "(internal)")
 	dump := flag.Bool("dump", false, "print the observed matrix to stderr")
 	replayFile := flag.String("replay-file", "", "re-execute the alteration of a replay file written by the check (class, seed, alteration) and report it")
+	seqCases := flag.String("seq", "", "read sequences written by TLC from spec/CorruptionSeq.tla: replay them (instead of the single-read matrix)")
 	repro := flag.Bool("repro", false, "run the minimal reproductions of the known findings in -dir and print them")
 	flag.Parse()
 
@@ -1164,6 +1165,10 @@ func main() {
 	}
 	quick := *tier != "thorough"
 	quickWorkload = quick
+	if *seqCases != "" {
+		runSeq(*seqCases, *dir, *seed, quick, *workers, *budget, *only)
+		return
+	}
 	var m matrix
 	vh.ReadJSON(*casesPath, &m)
 	m.index()
@@ -1488,12 +1493,41 @@ func runReplay(file, dir string) {
 			Seed       int64      `json:"seed"`
 			Alteration alteration `json:"alteration"`
 			Path       string     `json:"path"`
+			SeqCase    *seqCase   `json:"seqcase"`
+			Patches    []patch    `json:"patches"`
 		} `json:"replay"`
 	}
 	vh.ReadJSON(file, &rf)
 	quick := rf.Tier != "thorough"
 	quickWorkload = quick
 	res := vh.NewResult()
+	if cs := rf.Replay.SeqCase; cs != nil {
+		for i := range classes {
+			c := &classes[i]
+			if c.Name != rf.Replay.Class {
+				continue
+			}
+			sdir := filepath.Join(dir, "seq-"+c.Name)
+			sc := prepareSeqClass(sdir, c, rf.Replay.Seed, rand.New(rand.NewSource(1)))
+			img := filepath.Join(sdir, "w0")
+			makeImage(sc.dir, img, nil, false)
+			o := sc.runCase(cs, rf.Replay.Patches, img)
+			for k, obs := range o.observed {
+				res.Evaluations++
+				res.Count("seq-obs:"+cs.Seq[k][0]+":"+obs, 1)
+				if obs == "ALTERED" {
+					res.Violate("altered-content-served:read-sequence:"+cs.Seq[k][0]+":"+relation(cs, o.observed, k),
+						fmt.Sprintf("replay of %s, cache %s, sequence %s, step %d: altered content returned as valid", c.Name, cs.Mode, seqString(cs), k+1),
+						map[string]interface{}{"class": c.Name, "seed": rf.Replay.Seed, "seqcase": cs, "patches": rf.Replay.Patches, "steps": o.steps})
+				}
+			}
+			res.Distinct = len(o.observed)
+			os.RemoveAll(sdir)
+			res.Emit()
+			return
+		}
+		vh.Fatalf("replay: unknown class %q", rf.Replay.Class)
+	}
 	for i := range classes {
 		c := &classes[i]
 		if c.Name != rf.Replay.Class {
